@@ -565,11 +565,38 @@ def _flat(x):
   else: yield x
 
 
+def check_foreign_struct_arg(sh, rng, case):
+  """a struct-typed field (alone, inside a list field) given an instance of ANOTHER bitstruct class (same field names, another
+  width; the same width; a Bits value): refused - or the value still packs to exactly nbits and survives the round trip"""
+  from pymtl3.datatypes import mk_bits, mk_bitstruct, Bits
+  w1 = rng.choice([1, 3, 4, 8]); w2 = rng.choice([w1 + 1, w1 + 4, w1])
+  tag = f"{sh.idx}_{case}"
+  Hdr = mk_bitstruct(f"FHdr_{tag}", {"op": mk_bits(w1)})
+  Other = mk_bitstruct(f"FWide_{tag}", {"op": mk_bits(w2)})
+  Msg = mk_bitstruct(f"FMsg_{tag}", {"tag": mk_bits(4), "hdr": Hdr, "lst": [Hdr] * 2})
+  total = 4 + 3 * w1
+  foreign = rng.choice([Other(1), Other(0), mk_bits(w1)(1)])
+  for how in ("field", "list-element", "control"):
+    sh.count("foreign_struct_argument_probes")
+    try:
+      m = Msg(1, foreign) if how == "field" else Msg(1, Hdr(1), [foreign, Hdr(1)]) if how == "list-element" else Msg(1, Hdr(1), [Hdr(0), Hdr(1)])
+    except (TypeError, ValueError, AssertionError):
+      if how == "control": sh.violation("legal-constructor-arguments-refused", {"field_width": w1}, case=("foreign", case)); return
+      sh.count("foreign_struct_arguments_refused"); continue
+    try:
+      tb = m.to_bits(); ok = tb.nbits == total == Msg.nbits and Msg.from_bits(tb) == m and int(Msg.from_bits(tb).to_bits()) == int(tb)
+    except Exception: ok = False
+    if not ok:
+      sh.violation("struct-field-holds-a-value-of-another-class", {"how": how, "field_class": f"Hdr(op: Bits{w1})", "argument": repr(foreign), "value": repr(m),
+                   "declared_nbits": Msg.nbits}, case=("foreign", case)); return
+
+
 def run_shard(sh):
   rng = sh.rng("types")
   uid = [0]
   for case in range(sh.params["types"] // 2):
     check_array_decl(sh, sh.rng("arr", case), case)
+    check_foreign_struct_arg(sh, sh.rng("foreign", case), case)
   for case in range(sh.params["types"]):
     r = sh.rng("t", case)
     if sh.only is not None and str(case) != str(sh.only).strip('"'):
